@@ -18,6 +18,7 @@ func ZZRequestAnswered() {
 	notifyC := make(chan int, 4)
 	var held []int64 // amounts granted and not yet released (one Release per grant, as the torrent does)
 	var total int64
+	amounts := map[int]int64{} // amount asked by the request made in each step (queued requests are granted later through notifyC)
 	for step := 0; step < 3; step++ {
 		switch vrt.Choice("operation", 2) {
 		case 0:
@@ -27,6 +28,7 @@ func ZZRequestAnswered() {
 				close(cancelC)
 				vrt.Cover(true, "requester already cancelled")
 			}
+			amounts[step] = n
 			ok := m.Request("torrent", step, n, notifyC, cancelC)
 			if ok {
 				vrt.Cover(true, "granted")
@@ -41,13 +43,34 @@ func ZZRequestAnswered() {
 			total -= held[0]
 			held = held[1:]
 		}
-		// grants for queued requests arrive on notifyC; each is a held object of 1..3 units
-		// (the amount is not echoed, so queued requests all ask for the same amount below)
-		_ = notifyC
+		// grants for queued requests arrive on notifyC (the data echoed is the step of the request)
+		for {
+			got := -1
+			select {
+			case k := <-notifyC:
+				got = k
+			default:
+			}
+			if got < 0 {
+				break
+			}
+			held = append(held, amounts[got])
+			total += amounts[got]
+		}
 		st := m.Stats()
 		vrt.Assert(st.AllocatedSize >= 0 && st.AllocatedSize <= limit, "allocated size outside [0, limit]")
 		vrt.Assert(st.AllocatedObjects >= 0, "negative object count")
-		vrt.Assert(st.AllocatedSize >= total, "allocated size smaller than what was granted directly")
+		// reservations balance: what the manager has booked is exactly what requesters were told they hold
+		// (a grant may still be in flight to notifyC: then the manager has booked it already)
+		vrt.Assert(st.AllocatedSize >= total, "allocated size smaller than what was granted")
+		if st.AllocatedSize != total {
+			k, more := <-notifyC, true
+			_ = more
+			held = append(held, amounts[k])
+			total += amounts[k]
+			st = m.Stats()
+		}
+		vrt.Assert(st.AllocatedSize == total, "manager booked a reservation no requester was told about (leak)")
 	}
 	m.Close()
 }
